@@ -590,6 +590,7 @@ def base_globals():
         "Dagger": Builtin("Dagger", dagger_model),
         "matmul": SMulOp("matmul"),
         "BlockSeries": TypeObj("BlockSeries"),
+        "object": TypeObj("object"),
         "None": None,
     }
     return g
